@@ -1,4 +1,5 @@
 import TunnelModel.LFrame.Server
+import Proofs.Lemmas.ServerShape
 /-!
   C16 — unary and single-message call shapes are enforced on both ends
   (server side here; the caller's side is in `Proofs/Props/C16Client.lean`).
@@ -31,6 +32,34 @@ theorem C16_recv_sticky (sid : Sid) (s : SStream α) (e : SErr) (hst : s.hstatus
     (he : s.readErr = some e) :
     s.startRecv sid = (s, { dones := [(sid, "recv", e.toRes)] }) := by
   simp [SStream.startRecv, he, hst, SStream.afterDecode]
+
+/-- **At most one request is ever delivered** to the handler of a method with
+    a non-streaming request, over every sequence of stream-level operations
+    (frames of any kind from any peer, handler calls, context ends), from any
+    state. -/
+theorem C16_server_at_most_one (cfg : SCfg) (sid : Sid) (s0 : SStream α) (h0 : s0.cs = false)
+    (ops : List (Proofs.ServerShape.SOp α)) : (Proofs.ServerShape.runOps cfg sid s0 ops).2 ≤ 1 :=
+  Proofs.ServerShape.C16_server_at_most_one cfg sid s0 h0 ops
+
+/-- … and once it has been delivered, nothing is delivered any more and every
+    further read returns the sticky error. -/
+theorem C16_server_reads_fail_after_delivery (cfg : SCfg) (sid : Sid) (s0 : SStream α) (h0 : s0.cs = false)
+    (ops1 ops2 : List (Proofs.ServerShape.SOp α)) (h1 : (Proofs.ServerShape.runOps cfg sid s0 ops1).2 = 1) :
+    (Proofs.ServerShape.runOps cfg sid (Proofs.ServerShape.runOps cfg sid s0 ops1).1 ops2).2 = 0 :=
+  (Proofs.ServerShape.C16_server_reads_fail_after_delivery cfg sid s0 h0 ops1 ops2 h1).1
+
+/-- **A second request fails the RPC with InvalidArgument**: when the eager
+    look-ahead finds another complete message, the call completes with
+    InvalidArgument, nothing is delivered, and the stream is finished (close
+    frame with InvalidArgument unless already closed). -/
+theorem C16_second_request_fails (sid : Sid) (fuel : Nat) (s : SStream α) (p : PRead α) (m m2 : List α)
+    (w : Nat) (q : List (DFrame α)) (cs' : List Nat)
+    (hp : s.pread = some p) (hl : p.lookahead = some m)
+    (hr : readLoop s.rcv.rwin s.rcv.queue p.rst = (w, q, cs', some (.msg m2))) :
+    Proofs.ServerShape.delivered (s.resumeRead sid "" (fuel + 1)).2 = 0 ∧
+    (s.resumeRead sid "" (fuel + 1)).1.closed = true ∧ (s.resumeRead sid "" (fuel + 1)).1.inTable = false :=
+  let h := Proofs.ServerShape.C16_second_request_fails sid fuel s p m m2 w q cs' hp hl hr
+  ⟨h.2.1, h.2.2.2.2.1, h.2.2.2.2.2.1⟩
 
 -- non-vacuity: server-stream method, second message after the first completes the look-ahead with an error
 example :
